@@ -331,7 +331,7 @@ impl World {
         }
     }
 
-    fn resolve_parent(&self, sel: ParentSel) -> usize {
+    pub fn resolve_parent(&self, sel: ParentSel) -> usize {
         match sel {
             ParentSel::BestTip => self.model.best_tip(),
             ParentSel::Tip(i) => {
